@@ -27,9 +27,9 @@ func ruleScorchRootLockTable(r *Report, rule string) {
 		{"Scorch", "copyScheduled", "rootLock"},
 	}
 	exempt := map[string]string{
-		"index/scorch.NewScorch":               "constructor: the object is not yet shared",
-		"index/scorch.(*Scorch).openBolt":      "open phase: runs before any background loop is started (C03 K5-open-phase) and before the handle is returned",
-		"index/scorch.(*Scorch).UpdateFields":  "index-update open path (OpenMeta): no background loop is running; called once from openIndexUsing before Open",
+		"index/scorch.NewScorch":              "constructor: the object is not yet shared",
+		"index/scorch.(*Scorch).openBolt":     "open phase: runs before any background loop is started (C03 K5-open-phase) and before the handle is returned",
+		"index/scorch.(*Scorch).UpdateFields": "index-update open path (OpenMeta): no background loop is running; called once from openIndexUsing before Open",
 	}
 	ruleGuardedBy(r, rule, scorchPkg, table, exempt)
 }
